@@ -401,7 +401,7 @@ def _replay_schema(case: dict) -> List[str]:
 PROPS["C10"] = {"theorems": ["C10_outcome", "C10_json_only_partial", "C10_wellformed_partial", "D26_witness", "C10_ref",
                              "C10_nonrecurrent", "C10_lazy_unnamed", "predSchema_outcome", "jsonOnlyO_jaddPred",
                              "wfO_jaddPred", "predSchema_wf", "src_pred_schema", "src_pred_schema_arms_known",
-                             "src_schema_pins", "src_schema_validator_pinned"],
+                             "src_schema_pins", "src_schema_validator_pinned", "C10_src_pred_outcome", "C10_src_pred_wf"],
                 "modules": ["KodaModel.Properties.C10", "KodaModel.Properties.C10WF", "KodaModel.Properties.C10Src",
                             "KodaModel.Properties.C10Pins"],
                 "level_note": "the text of the schema generators for validators (json_schema.py, everything but the translated generate_schema_predicate) is pinned against the current source (src_schema_validator_pinned).  tied to the source for the predicate keywords: generate_schema_predicate is translated on every "
